@@ -207,13 +207,13 @@ def shard_config(tier):
     si = shard_info()
     if tier == 'thorough':
         if si is None:
-            return DISSIPATIVE + NONDISSIPATIVE, TRUNCS, [2, 3, 4, 5, 6, 7], ['all', 'e', 'n', 'visc']
+            return DISSIPATIVE + NONDISSIPATIVE, TRUNCS, [2, 3, 4, 5, 6, 7], ['all', 'e', 'n', 'visc', 'spin']
         i, k = si
         # every shard: 4 rheologies, 3 truncations (2 always: closed-form clause), l_max 2,3 + two of 4..7
         rh = [DISSIPATIVE[(i + j * 3) % len(DISSIPATIVE)] for j in range(4)] + [NONDISSIPATIVE[i % 2]]
         tr = [2, TRUNCS[1 + i % 9], TRUNCS[1 + (i * 4 + 3) % 9]]
         lm = [2, 3, 4 + i % 4]
-        am = ['all', ['e', 'n', 'visc'][i % 3]]
+        am = ['all', ['e', 'n', 'visc', 'spin'][i % 4]]
         return rh, sorted(set(tr)), sorted(set(lm)), am
     if si is None:
         return DISSIPATIVE + NONDISSIPATIVE, [2, 6, 10], [2, 3], ['all']
@@ -222,7 +222,9 @@ def shard_config(tier):
     if i % 4 == 0:
         rh.append(NONDISSIPATIVE[(i // 4) % 2])
     tr = [2, TRUNCS[1 + i % 9]]
-    return rh, tr, [2, 3], ['all']
+    # one shard in four also passes the spin rate alone as an array (scalar orbit): quick_tides has a separate broadcasting
+    # branch for that combination
+    return rh, tr, [2, 3], (['all', 'spin'] if i % 4 == 1 else ['all'])
 
 
 # ---------------------------------------------------------------------------------------------------
@@ -302,7 +304,7 @@ def case_in_domain(case):
     try:
         if case['l_max'] not in range(2, 8) or case['trunc'] not in TRUNCS:
             return False
-        if case['as_array'] not in (False, 'all', 'e', 'n', 'visc') or not (22.0 <= case['log_host_mass'] <= 30.0):
+        if case['as_array'] not in (False, 'all', 'e', 'n', 'visc', 'spin') or not (22.0 <= case['log_host_mass'] <= 30.0):
             return False
         if len(case['bodies']) != 2 or not (1 <= len(case['pts']) <= 4):
             return False
@@ -389,16 +391,17 @@ class Setup:
         self.n = np.sqrt(G_SI * self.M_total / self.a_gen ** 3)
         mode = self.as_array
         # which inputs vary along the array axis
-        if mode in ('e', 'visc'):
+        if mode in ('e', 'visc', 'spin'):
             self.n = self.n[0] * np.ones(self.k)
-        if mode in ('n', 'visc'):
+        if mode in ('n', 'visc', 'spin'):
             self.e = self.e[0] * np.ones(self.k)
         for b in self.bodies:
-            if mode in ('e', 'n'):
+            if mode in ('e', 'n', 'spin'):
                 b.visc = b.visc[0] * np.ones(self.k)
                 b.shear = b.shear[0] * np.ones(self.k)
             if mode in ('e', 'n', 'visc'):
                 b.ratio = b.ratio[0] * np.ones(self.k)
+            if mode in ('e', 'n', 'visc', 'spin'):
                 if b.obl is not None:
                     b.obl = b.obl[0] * np.ones(self.k)
         # the semi-major axis as Kepler's third law gives it for the mean motion actually passed
@@ -423,7 +426,7 @@ class Setup:
         if j is not None:
             return float(v[j])
         varies = {'all': ('e', 'n', 'spin', 'obl', 'visc', 'shear'), 'e': ('e',), 'n': ('n',),
-                  'visc': ('visc', 'shear')}[mode]
+                  'visc': ('visc', 'shear'), 'spin': ('spin',)}[mode]
         if name in varies:
             return np.array(v, dtype=float)
         return float(v[0])
